@@ -54,9 +54,14 @@ def build(c, d, o, odd, rev):
 
 def child(tier):
     """Runs inside the interpreter under test; prints one JSON document."""
+    import tempfile, shutil
     ns = target.load()
-    out = {'optimize': sys.flags.optimize, 'n': 0, 'accepted': 0, 'rejected': 0, 'nontrivial': 0, 'findings': [], 'samples': []}
+    out = {'optimize': sys.flags.optimize, 'n': 0, 'accepted': 0, 'rejected': 0, 'nontrivial': 0, 'findings': [], 'samples': [],
+           'other_constructors': 0}
     seen = set()
+    store = coll.FakeS3()
+    store.install(ns)
+    tmpd = tempfile.mkdtemp(prefix='mosmc-c11-')
     for (c, d, o, odd, allow, rev) in cases(tier):
         docs = build(c, d, o, odd, rev)
         uniform = odd is None or (c + d + o) == 1    # a single member always shares 'one' ID
@@ -71,6 +76,36 @@ def child(tier):
             res = 'InvalidMosCollection'
         except Exception as e:  # noqa
             res = 'BUILTIN:' + type(e).__name__
+        # the other two constructors must give the same verdict
+        if not rev:
+            texts = [t for _, _, t in docs]
+            for ctor in ('files', 's3'):
+                try:
+                    if ctor == 'files':
+                        paths = []
+                        for k, t in enumerate(texts):
+                            pth = os.path.join(tmpd, f'c{k}.mos.xml')
+                            open(pth, 'w', encoding='utf-8').write(t)
+                            paths.append(pth)
+                        ns.mc.MosCollection.from_files(paths, allow_incomplete=allow)
+                    else:
+                        store.objects = {}
+                        store.pages = {}
+                        for k, t in enumerate(texts):
+                            store.put('b11', f'p/{k}.mos.xml', t)
+                        ns.mc.MosCollection.from_s3(bucket_name='b11', prefix='p/', allow_incomplete=allow)
+                    r2 = 'accepted'
+                except ns.exc.InvalidMosCollection:
+                    r2 = 'InvalidMosCollection'
+                except Exception as e:  # noqa
+                    r2 = 'BUILTIN:' + type(e).__name__
+                out['other_constructors'] += 1
+                if r2 != res and f'ctor:{ctor}' not in seen:
+                    seen.add(f'ctor:{ctor}')
+                    out['findings'].append({'sig': f'O={sys.flags.optimize}:constructor-{ctor}-differs', 'count': 1,
+                                            'detail': f'python -O={sys.flags.optimize}: list with {c} roCreate, {d} roDelete, {o} other, odd-ID member={odd}, '
+                                                      f'allow_incomplete={allow}: from_strings says {res}, from_{ctor} says {r2}',
+                                            'documents': texts, 'allow_incomplete': allow, 'optimize': sys.flags.optimize})
         sig = None
         if expect and res != 'accepted':
             sig = f'valid-rejected:{res}'
@@ -102,6 +137,7 @@ def child(tier):
                         f['count'] += 1
         if len(out['samples']) < 3 and (c, d, o) in ((1, 1, 1), (2, 1, 0), (1, 0, 2)) and odd is None and not rev:
             out['samples'].append({'roCreates': c, 'roDeletes': d, 'others': o, 'allow_incomplete': allow, 'result': res, 'optimize': sys.flags.optimize})
+    shutil.rmtree(tmpd, ignore_errors=True)
     json.dump(out, sys.stdout)
 
 
@@ -138,12 +174,12 @@ def run(tier):
         'samples': [s for r in results for s in r['samples']][:6],
         'exhaustive': True,
         'interpreters': [{'flags': r['flags'], 'sys.flags.optimize': r['optimize'], 'collections': r['n'],
-                          'accepted': r['accepted'], 'rejected': r['rejected']} for r in results],
+                          'accepted': r['accepted'], 'rejected': r['rejected'], 'verdicts_compared_through_from_files_and_from_s3': r.get('other_constructors', 0)} for r in results],
         'violation_signatures': nv, 'known_finding_signatures': nk, 'repo': target.REPO,
     }
     wall = time.time() - t0
     evidence.write('C11', tier, runner.seed(), 'exploration', coverage, wall, nv,
-                   ['from_strings is the constructor used (the three constructors share __init__/_validate; their equivalence is C18)'])
+                   ['the oracle is applied to from_strings; from_files and from_s3 (fake bucket) must give the same verdict on every list in its first supply order'])
     print(f'C11 [{tier}] evaluations={n} violations={nv} known={nk} wall={wall:.1f}s')
     if nv:
         return 1
